@@ -24,7 +24,9 @@ Thorough == Tier = "thorough"
 Schemes == {"http", "HTTP", "https"}
 Hosts   == {"example.com", "EXAMPLE.com", "example.org", "[::1]", "[::1:8080]", "127.0.0.1"}
 Ports   == {"", ":", ":80", ":443", ":8080"}
-Segs    == {"a", "A", "%61", "~", "%7E", "%7e", "a%2Fb", "a%2fb", "%E9", "%e9", "RAWE9", "%C3%A9", "+", "%2B", "%20", "b"}
+\* (a.b / a%2Eb: "." is unreserved; a%3Fq=a: an escaped "?" stays part of the path; %2541 / a%252Fb: an escaped "%")
+Segs    == {"a", "A", "%61", "~", "%7E", "%7e", "a%2Fb", "a%2fb", "%E9", "%e9", "RAWE9", "%C3%A9", "+", "%2B", "%20", "b",
+            "a.b", "a%2Eb", "a%2eb", "a%3Fq=a", "%2541", "a%252Fb"}
 Paths   == {<<>>, <<"">>} \cup {<<s>> : s \in Segs} \cup {<<"a", s>> : s \in {"b", "B", ".", "..", ""}}
            \cup {<<".", "a">>, <<"..", "a">>, <<"a", ".", "b">>, <<"a", "..", "b">>, <<"a", "b", "..">>, <<"x", "..", "a">>, <<"a", "", "b">>}
 Queries == {"NONE", "q=RAWFF", "q=RAWFE", "q=RAWFFFD", "q=%%341", "q=%4%31", "q=a", "q=A", "q=%61", "q=~", "q=%7e", "q=%7E", "q=%E9", "q=%e9", "q=RAWE9", "q=%C3%A9", "q=a%2Fb", "q=a%2fb", "q=a&r=b", "r=b&q=a", "q=+", "q=%20"}
@@ -46,7 +48,15 @@ Bases ==
     { U("http", "example.com", ":8080", <<>>, "NONE", "", ""),
       U("http", "127.0.0.1", "", <<"a%2Fb">>, "q=a%2Fb", "", ""),
       U("https", "example.com", ":443", <<"a", "..", "b">>, "q=RAWE9", "", ""),
-      U("http", "example.com", "", <<"RAWE9">>, "q=%C3%A9", "", "") } ELSE {})
+      U("http", "example.com", "", <<"RAWE9">>, "q=%C3%A9", "", ""),
+      U("https", "[::1]", "", <<"a", "..", "b">>, "q=RAWFE", "", ""),
+      U("http", "EXAMPLE.com", ":80", <<"%7E">>, "q=%7e", "#frag", ""),
+      U("HTTP", "example.org", ":", <<"a", "", "b">>, "q=a&r=b", "", ""),
+      U("http", "example.com", ":443", <<"a%2fb">>, "q=+", "", ""),
+      U("https", "127.0.0.1", ":8080", <<"x", "..", "a">>, "q=%20", "", "user@"),
+      U("http", "[::1:8080]", "", <<"">>, "q=RAWFFFD", "", ""),
+      U("http", "example.com", "", <<"+">>, "q=%4%31", "", ""),
+      U("https", "example.com", "", <<".", "a">>, "NONE", "#frag", "") } ELSE {})
 
 Mut1(a) ==
   {[a EXCEPT !.scheme = v] : v \in Schemes} \cup {[a EXCEPT !.host = v] : v \in Hosts} \cup {[a EXCEPT !.port = v] : v \in Ports}
@@ -63,6 +73,7 @@ PortNF(scheme, p) == IF p \in {"", ":", DefaultPort(scheme)} THEN "" ELSE p
 
 \* percent-encoding: hex digits upper case, escaped unreserved ASCII decoded
 PctNF(s) == CASE s = "%61" -> "a" [] s \in {"%7E", "%7e"} -> "~" [] s = "a%2fb" -> "a%2Fb" [] s = "%e9" -> "%E9"
+              [] s \in {"a%2Eb", "a%2eb"} -> "a.b"
               [] s = "q=%61" -> "q=a" [] s \in {"q=%7e", "q=%7E"} -> "q=~" [] s = "q=a%2fb" -> "q=a%2Fb" [] s = "q=%e9" -> "q=%E9"
               [] OTHER -> s
 \* in a path, Go sends raw non-ASCII bytes escaped; in a query it sends them raw
